@@ -338,6 +338,100 @@ def clone_from_calls(src, log):
     raise ExtractError("R13 did not converge")
 
 
+# ---------------------------------------------------------------- R15 or-pattern + guard
+def split_or_guard_arms(src, log):
+    """R15: a match arm `P1 | P2 | .. if G => B` becomes `P1 if G => B, P2 if G => B, ..` (Verus: "match arm containing
+    both an or-pattern (|) and a match-guard" is not supported).  Same arms in the same order, the guard is
+    evaluated for the alternative that matched, the body text is repeated."""
+    for _ in range(50):
+        toks = tokenize(src)
+        hit = None
+        for k, t in enumerate(toks):
+            if not (t.kind == "ident" and t.text == "match"):
+                continue
+            # scrutinee: up to the first `{` outside parentheses / brackets
+            j = next_sig(toks, k)
+            d = 0
+            while j < len(toks):
+                x = toks[j].text
+                if x in ("(", "["):
+                    d += 1
+                elif x in (")", "]"):
+                    d -= 1
+                elif x == "{" and d == 0:
+                    break
+                elif x == ";" and d == 0:
+                    j = len(toks)
+                    break
+                j = next_sig(toks, j)
+            if j >= len(toks):
+                continue
+            mo, mc = j, match_close(toks, j)
+            a = next_sig(toks, mo)
+            while a < mc:
+                # pattern [if guard] => body [,]
+                d = 0
+                q = a
+                bars, guard_at, arrow = [], None, None
+                while q < mc:
+                    x = toks[q].text
+                    if x in ("(", "[", "{"):
+                        d += 1
+                    elif x in (")", "]", "}"):
+                        d -= 1
+                    elif d == 0 and x == "=>":
+                        arrow = q
+                        break
+                    elif d == 0 and x == "|" and guard_at is None:
+                        bars.append(q)
+                    elif d == 0 and x == "if" and toks[q].kind == "ident" and guard_at is None:
+                        guard_at = q
+                    q = next_sig(toks, q)
+                if arrow is None:
+                    break
+                b = next_sig(toks, arrow)
+                if toks[b].text == "{":
+                    e = match_close(toks, b) + 1
+                else:
+                    d = 0
+                    e = b
+                    while e < mc:
+                        x = toks[e].text
+                        if x in ("(", "[", "{"):
+                            d += 1
+                        elif x in (")", "]", "}"):
+                            d -= 1
+                        elif x == "," and d == 0:
+                            break
+                        e = next_sig(toks, e)
+                nx = e if e < len(toks) and toks[e].kind not in ("ws", "comment") else next_sig(toks, e - 1)
+                end = nx + 1 if nx < mc and toks[nx].text == "," else e
+                if guard_at is not None and bars:
+                    hit = (a, bars, guard_at, arrow, b, e, end)
+                    break
+                a = nx + 1 if nx < mc and toks[nx].text == "," else nx
+                if a < mc and toks[a].kind in ("ws", "comment"):
+                    a = next_sig(toks, a)
+            if hit:
+                break
+        if not hit:
+            return src
+        a, bars, guard_at, arrow, b, e, end = hit
+        cuts = [a] + bars + [guard_at]
+        alts = []
+        for i in range(len(cuts) - 1):
+            lo = cuts[i] + (1 if i > 0 else 0)
+            alt = text(toks, lo, cuts[i + 1]).strip()
+            if alt:
+                alts.append(alt)
+        guard = text(toks, guard_at, arrow).strip()
+        body = text(toks, b, e).strip()
+        arms = "\n".join("%s %s => %s," % (alt, guard, body if body.startswith("{") else "{ %s }" % body) for alt in alts)
+        src = text(toks, 0, a) + arms + text(toks, end, len(toks))
+        log.append({"rule": "R15", "alternatives": len(alts), "guard": guard[:80]})
+    raise ExtractError("R15 did not converge")
+
+
 # ---------------------------------------------------------------- R4 format!
 def _strip_ref(a):
     a = a.strip()
